@@ -46,6 +46,14 @@ _m = {}
 _dir = [None]
 
 
+
+def _workdir():
+    """one directory per worker process: SQLite creates and deletes journal files all the time, and sixteen workers doing that in one
+    tmpfs directory serialise on it"""
+    d = os.path.join(_dir[0], "p%d" % os.getpid())
+    os.makedirs(d, exist_ok=True)
+    return d
+
 def setup():
     from sqlalchemy import create_engine, Column, Integer, exc, event
     from sqlalchemy.orm import Session, declarative_base
@@ -186,7 +194,7 @@ def run_case(case):
     create_engine, exc, Session, orm_exc = _m["create_engine"], _m["exc"], _m["Session"], _m["orm_exc"]
     Cls = {"default": _m["V"], "plus10": _m["V10"], "server": _m["VS"], "server_noret": _m["VSN"]}[case["gen"]]
     step = 10 if case["gen"] == "plus10" else 1
-    path = os.path.join(_dir[0], "v%d.db" % os.getpid())
+    path = os.path.join(_workdir(), "v.db")
     for suffix in ("", "-journal"):
         try:
             os.unlink(path + suffix)
